@@ -614,7 +614,43 @@ def c16_r4(ctx: Ctx, rule):
         mode = m.value if isinstance(m, ast.Constant) else "r"
         enc = next((k.value.value for k in c.keywords if k.arg == "encoding" and isinstance(k.value, ast.Constant)), None)
         ok = "b" in str(mode) or (enc is not None and str(enc).lower().replace("-", "") == "utf8")
-        res.ob("deserialize: %s  [binary or explicit utf-8: %s]" % (norm(c), ok))
+        # the name that is opened is the caller's: the source itself, or - only under a test for the file: scheme - its URL path
+        src_param = fi.params[1] if len(fi.params) > 1 else None
+        if src_param is None and "source" in fi.params:
+            src_param = "source"
+        for pn in fi.params:
+            if pn == "source":
+                src_param = pn
+        a0 = c.args[0] if c.args else None
+        def own_name(e):
+            if isinstance(e, ast.Name) and e.id == src_param:
+                return True
+            if isinstance(e, ast.Call) and call_name(e) in ("fspath", "str", "abspath", "expanduser", "fsdecode") and e.args:
+                return own_name(e.args[0])
+            return False
+        named_ok = True
+        if isinstance(a0, ast.Name) and a0.id != src_param:
+            parents = {}
+            for x in ast.walk(fi.node):
+                for ch in ast.iter_child_nodes(x):
+                    parents[id(ch)] = x
+            for st in walk_function(fi.node):
+                tgt_hit = isinstance(st, ast.Assign) and any(isinstance(y, ast.Name) and y.id == a0.id for t in st.targets for y in ast.walk(t))
+                if not tgt_hit:
+                    continue
+                if len(st.targets) == 1 and isinstance(st.targets[0], ast.Name) and own_name(st.value):
+                    continue
+                cur, under_file_test = st, False
+                while id(cur) in parents:
+                    cur = parents[id(cur)]
+                    if isinstance(cur, ast.If) and any(isinstance(k, ast.Constant) and k.value == "file" for k in ast.walk(cur.test)):
+                        under_file_test = True
+                if not under_file_test:
+                    named_ok = False
+                    res.fail(rule.id, "opened-name-not-the-source::%s" % norm(st)[:50], ctx.loc(q, st),
+                             "deserialize opens `%s`, which `%s` sets for every source, not only for file: URLs: a plain file name is cut where URL syntax would end the path" % (a0.id, norm(st)[:60]),
+                             "a file named run#2.json (or a?b.json, a;b.json) written by serialize() cannot be read back by path: the reader opens 'run'")
+        res.ob("deserialize: %s  [binary or explicit utf-8: %s; the caller's own name: %s]" % (norm(c), ok, named_ok))
         if not ok:
             res.fail(rule.id, "locale-dependent-open::%s" % norm(c), ctx.loc(q, c), "%s decodes the file with the locale's preferred encoding" % norm(c),
                      "a UTF-8 PROV-XML/JSON file with non-ASCII content cannot be read under a C/ASCII or latin-1 locale (or is mis-decoded)")
